@@ -24,7 +24,7 @@ WRAPPED = ['create_entity', 'add_component', 'remove_component',
 STATE = {'depth': 0, 'calls': collections.Counter(), 'evaluations': 0,
          'pairs_checked': 0, 'violations': [], 'worlds': set(),
          'skipped_nested': 0, 'skipped_raised': 0, 'tests_failed': [],
-         'tests_run': 0}
+         'tests_run': 0, 'tree_evaluations': 0, 'tree_nodes_checked': 0}
 
 
 def _violation(kind, what, **kw):
@@ -90,7 +90,44 @@ def check_world(w, after):
                        processor=p)
 
 
-def _wrap(name, original):
+def check_tree(m, after, seen=None):
+    """C11: under one map a name is a handle or a sub-map, and everything
+    reachable records the map containing it and the name it is stored
+    under (public attributes ``maps``, ``handles``, ``parent``, ``key``)."""
+    seen = set() if seen is None else seen
+    if id(m) in seen:
+        return
+    seen.add(id(m))
+    STATE['tree_evaluations'] += 1
+    for name in list(m.handles):
+        h = m.handles[name]
+        STATE['tree_nodes_checked'] += 1
+        if name in m.maps:
+            _violation('name-is-handle-and-map', f'{name!r} (after {after})')
+        if getattr(h, 'parent', None) is not m \
+                or getattr(h, 'key', None) != name:
+            _violation('handle-back-link', f'handle stored under {name!r} '
+                       f'records parent/key {getattr(h, "parent", None)!r}/'
+                       f'{getattr(h, "key", None)!r} (after {after})')
+        if m.get(name) is not h:
+            _violation('get-vs-handles', f'get({name!r}) is not the visible '
+                       f'handle (after {after})')
+    for name, sub in list(m.maps.items()):
+        STATE['tree_nodes_checked'] += 1
+        if getattr(sub, 'parent', None) is not m \
+                or getattr(sub, 'key', None) != name:
+            _violation('map-back-link', f'sub-map stored under {name!r} '
+                       f'records parent/key {getattr(sub, "parent", None)!r}/'
+                       f'{getattr(sub, "key", None)!r} (after {after})')
+        if m.get(name) is not sub:
+            _violation('get-vs-maps', f'get({name!r}) is not the sub-map '
+                       f'(after {after})')
+        check_tree(sub, after, seen)
+
+
+def _wrap(name, original, checker=None):
+    checker = checker or check_world
+
     @functools.wraps(original)
     def wrapper(self, *args, **kwargs):
         STATE['depth'] += 1
@@ -104,7 +141,7 @@ def _wrap(name, original):
         STATE['calls'][name] += 1
         if STATE['depth'] == 0:
             STATE['worlds'].add(id(self))
-            check_world(self, name)
+            checker(self, name)
         else:
             STATE['skipped_nested'] += 1
         return out
@@ -115,6 +152,10 @@ def pytest_configure(config):
     import desper
     for name in WRAPPED:
         setattr(desper.World, name, _wrap(name, getattr(desper.World, name)))
+    for name in ('__setitem__', 'clear'):
+        setattr(desper.ResourceMap, name,
+                _wrap('ResourceMap.' + name,
+                      getattr(desper.ResourceMap, name), check_tree))
     STATE['desper_file'] = desper.__file__
 
 
@@ -133,6 +174,8 @@ def pytest_sessionfinish(session, exitstatus):
         json.dump({'calls': dict(STATE['calls']),
                    'evaluations': STATE['evaluations'],
                    'pairs_checked': STATE['pairs_checked'],
+                   'tree_evaluations': STATE['tree_evaluations'],
+                   'tree_nodes_checked': STATE['tree_nodes_checked'],
                    'worlds': len(STATE['worlds']),
                    'skipped_nested': STATE['skipped_nested'],
                    'skipped_raised': STATE['skipped_raised'],
@@ -150,6 +193,8 @@ FAMILY = {
             'entities-vs-entity_exists'),
     'C02': ('attached-not-registered',),
     'C07': ('two-processors-of-one-type', 'processors-vs-get_processor'),
+    'C11': ('name-is-handle-and-map', 'handle-back-link', 'map-back-link',
+            'get-vs-handles', 'get-vs-maps'),
 }
 
 
@@ -197,6 +242,8 @@ def run_suite(family):
     res.stats['suite_world_calls_observed'] += sum(seen['calls'].values())
     res.stats['suite_invariant_evaluations'] += seen['evaluations']
     res.stats['suite_pairs_checked'] += seen['pairs_checked']
+    res.stats['suite_tree_evaluations'] += seen.get('tree_evaluations', 0)
+    res.stats['suite_tree_nodes_checked'] += seen.get('tree_nodes_checked', 0)
     res.tags['suite_calls'].update(seen['calls'])
     mine = [v for v in seen['violations'] if v['kind'] in FAMILY[family]]
     if mine:
